@@ -273,8 +273,9 @@ class FakeTRX(Transceiver):
 			log.debug("(%s) Recv FAKE_TOA cmd" % self)
 
 			# Parse and apply both base and threshold
-			self.toa256_base = int(request[1])
-			self.toa256_rand_threshold = int(request[2])
+			(base, threshold) = (int(request[1]), int(request[2]))
+			self.toa256_base = base
+			self.toa256_rand_threshold = threshold
 			return 0
 
 		# Timing of Arrival simulation
@@ -291,14 +292,17 @@ class FakeTRX(Transceiver):
 		elif self.ctrl_if.verify_cmd(request, "FAKE_RSSI", 2):
 			log.debug("(%s) Recv FAKE_RSSI cmd" % self)
 
+			# Parse both base and threshold
+			(base, threshold) = (int(request[1]), int(request[2]))
+
 			# Use negative threshold to disable fake_rssi if previously enabled:
-			if int(request[2]) < 0:
+			if threshold < 0:
 				self.fake_rssi_enabled = False
 				return 0
 
-			# Parse and apply both base and threshold
-			self.rssi_base = int(request[1])
-			self.rssi_rand_threshold = int(request[2])
+			# Apply both base and threshold
+			self.rssi_base = base
+			self.rssi_rand_threshold = threshold
 			self.fake_rssi_enabled = True
 			return 0
 
@@ -317,8 +321,9 @@ class FakeTRX(Transceiver):
 			log.debug("(%s) Recv FAKE_CI cmd" % self)
 
 			# Parse and apply both base and threshold
-			self.ci_base = int(request[1])
-			self.ci_rand_threshold = int(request[2])
+			(base, threshold) = (int(request[1]), int(request[2]))
+			self.ci_base = base
+			self.ci_rand_threshold = threshold
 			return 0
 
 		# C/I simulation
